@@ -1031,9 +1031,9 @@ def engine_tie(ctx, results_or_programs, pid, nprog=None, nhist=None, nmerge=Non
     """nprog: at most that many programs of `results_or_programs` (enum programs are skipped); nhist: histories per program;
     nmerge: additional programs from the union/diagonal-biased generator of C04 (histories generated here)."""
     quick = ctx.tier == "quick"
-    nprog = (16 if quick else 120) if nprog is None else nprog
-    nhist = nhist or (5 if quick else 12)
-    nmerge = (6 if quick else 40) if nmerge is None else nmerge
+    nprog = (16 if quick else 48) if nprog is None else nprog
+    nhist = nhist or (5 if quick else 8)
+    nmerge = (6 if quick else 20) if nmerge is None else nmerge
     if not any(o[0] == "build:Engine" for o in ctx.obligations):
         ctx.coq_build("Engine")
     if not any(o[0] == "build:Sem" for o in ctx.obligations):
